@@ -37,6 +37,12 @@ Theorem C13_model_is_source_merge_min_smooth_plates : forall min_size rows ds fu
 Proof. exact src_merge_min_is_model. Qed.
 Print Assumptions C13_model_is_source_merge_min_smooth_plates.
 
+(* MergeTopBottomPlateSmoother._smooth_plates: equal to [merge_tb] (the subject of C13_topbottom_halves / _counts) *)
+Theorem C13_model_is_source_merge_tb_smooth_plates : forall n_iter rows,
+  src_merge_tb_smooth_plates n_iter rows = merge_tb n_iter rows.
+Proof. exact src_merge_tb_is_model. Qed.
+Print Assumptions C13_model_is_source_merge_tb_smooth_plates.
+
 (* ---- sample-segregating generator ---- *)
 Theorem C13_sample_segregating_shape : forall mx rows ds out ds',
   generate_plates (GSampleSeg true mx) rows ds = Ok (out, ds') ->
